@@ -164,6 +164,9 @@ def run(ctx):
     rep.rule("C21.R1b", "proceeding with an unconverged step only when continue_with_unconverged is true", 8)
     rep.rule("C21.R2", "truncated returns warn with the time and carry no failed-step data", 4)
     rep.rule("C21.R3", "every force family is used or guarded by each solver", 40)
+    rep.rule("C21.R5", "static Newton returns only load steps it has solved and accepted: the rows of every returned Solution end before a load step that was left unconverged (shared with C23.R6)", 3)
+    from .c23 import newton_rows
+    newton_rows(ctx, "C21.R5")
     rep.rule("C21.R4", "the iteration helpers of the solvers cannot hand back an unconverged / diverged iterate as success (fsolve warns, fixed-point helpers raise)", 4)
     from . import c22
     for rel_, fname_, _tols, kind_ in c22.HELPERS:
@@ -442,4 +445,8 @@ NEUTRAL += [
          edits=[(DSV_, "    converged = False\n    for k in range(0, max_iter):", "    for k in range(0, max_iter):"),
                 (DSV_, "        if error < 1:\n            converged = True\n            break", "        if error < 1:\n            break"),
                 (DSV_, "    if not converged:\n", "    if not (error < 1):\n")]),
+]
+MUTANTS += [
+    dict(id="c21-r5-1", canary=True, what="static Newton's truncated return includes the load step that did not converge", file="cardillo/solver/statics.py",
+         old="                    q=self.x[:i, : self.split_x[0]],", new="                    q=self.x[: i + 1, : self.split_x[0]],", expect="C21.R5"),
 ]
